@@ -33,3 +33,16 @@ Theorem C13_nonvacuous :
   /\ sanitize_struct (lit "self") = Ok (lit "Self_") /\ op_file_name (op_name_of_id (lit "type")) = lit "type_".
 Proof. vm_compute. repeat split; reflexivity. Qed.
 Print Assumptions C13_nonvacuous.
+
+(* the crate name imported by every example (`use <pkg>::...`): snake-shaped for every service name over [A-Za-z0-9_ -];
+   an identifier exactly when it does not begin with a digit *)
+Theorem C13_package_name : forall svc, forallb ad svc = true -> existsb is_alnum svc = true ->
+  good (package_name svc) = true /\
+  ident_new_ok (package_name svc) = negb (match package_name svc with c :: _ => is_digit c | [] => false end).
+Proof. exact package_name_shape. Qed.
+Print Assumptions C13_package_name.
+
+Example C13_package_name_nonvacuous :
+  forallb ad (lit "Pet-Store v2") = true /\ existsb is_alnum (lit "Pet-Store v2") = true
+  /\ package_name (lit "Pet-Store v2") = lit "pet_store_v_2" /\ ident_new_ok (package_name (lit "2Checkout")) = false.
+Proof. vm_compute. repeat split; reflexivity. Qed.
